@@ -13,10 +13,8 @@ from typing import Any
 from typing import Tuple
 
 from clikit.api.io import IO
-from clikit.formatter.plain_formatter import PlainFormatter
 from clikit.utils._compat import PY2
 from clikit.utils._compat import PY36
-from clikit.utils._compat import decode
 from clikit.utils._compat import encode
 
 
@@ -77,7 +75,7 @@ class Highlighter(object):
         except (tokenize.TokenError, SyntaxError):
             # The source cannot be tokenized (it changed on disk after it was
             # loaded, or it is not Python code): show it without highlighting
-            return source.split("\n")
+            return source.replace("<", "\\<").split("\n")
 
     def split_to_lines(self, source):
         lines = []
@@ -86,12 +84,8 @@ class Highlighter(object):
         buffer = ""
         current_type = None
         source_io = io.BytesIO(encode(source))
-        formatter = PlainFormatter()
 
-        def readline():
-            return encode(formatter.remove_format(decode(source_io.readline())))
-
-        tokens = tokenize.tokenize(readline)
+        tokens = tokenize.tokenize(source_io.readline)
         line = ""
         for token_info in tokens:
             token_type, token_string, start, end, _ = token_info
@@ -103,7 +97,7 @@ class Highlighter(object):
             if token_type == tokenize.ENDMARKER:
                 # End of source
                 if current_type is not None:
-                    line += "<{}>{}</>".format(self._theme[current_type], buffer)
+                    line += self._styled(current_type, buffer)
 
                 lines.append(line)
                 break
@@ -113,9 +107,7 @@ class Highlighter(object):
                 if diff > 1:
                     lines += [""] * (diff - 1)
 
-                line += "<{}>{}</>".format(
-                    self._theme[current_type], buffer.rstrip("\n")
-                )
+                line += self._styled(current_type, buffer.rstrip("\n"))
 
                 # New line
                 lines.append(line)
@@ -148,7 +140,7 @@ class Highlighter(object):
                 buffer += token_info.line[current_col : start[1]]
 
             if current_type != new_type:
-                line += "<{}>{}</>".format(self._theme[current_type], buffer)
+                line += self._styled(current_type, buffer)
                 buffer = ""
                 current_type = new_type
 
@@ -157,9 +149,7 @@ class Highlighter(object):
                 lines.append(line)
                 token_lines = token_string.split("\n")
                 for token_line in token_lines[1:-1]:
-                    lines.append(
-                        "<{}>{}</>".format(self._theme[current_type], token_line)
-                    )
+                    lines.append(self._styled(current_type, token_line))
 
                 current_line = end[0]
                 buffer = token_lines[-1][: end[1]]
@@ -171,6 +161,10 @@ class Highlighter(object):
             current_line = lineno
 
         return lines
+
+    def _styled(self, token_type, text):
+        # The source is text, not markup: the lines are formatted when written
+        return "<{}>{}</>".format(self._theme[token_type], text.replace("<", "\\<"))
 
     def line_numbers(self, lines, mark_line=None):
         max_line_length = max(3, len(str(len(lines))))
